@@ -1,31 +1,38 @@
 #!/bin/bash
-# usage: reverify_seeded.sh [tier] [id...]   -- for every /verif/seeded/<id>: apply patch.diff to /repo, run the
-# checks of the properties listed in meta.json (check_props), record which obligations report a violation,
-# revert /repo. Writes /verif/seeded/RESULTS.json and updates caught_by in each meta.json.
+# usage: reverify_seeded.sh [tier] [id...]   -- for every /verif/seeded/<id>: copy /repo's working tree to a scratch
+# directory, apply patch.diff there, run the checks of the properties listed in meta.json (check_props) against the
+# copy (VERIF_REPO; such runs never write evidence), record which obligations report a violation, remove the copy.
+# Up to $PAR mutants are evaluated at a time. Writes /verif/seeded/RESULTS.json and updates caught_by in meta.json.
 T=${1:-quick}; shift
+PAR=${PAR:-4}
 cd /verif
 IDS="$@"; [ -z "$IDS" ] && IDS=$(ls seeded | grep -E '^C[0-9]+-')
-git -C /repo status --short | grep -q . && { echo "/repo not clean"; exit 2; }
-for id in $IDS; do
-  d=seeded/$id
-  props=$(python3 -c "import json;print(' '.join(json.load(open('$d/meta.json'))['check_props']))")
-  git -C /repo apply $d/patch.diff || { echo "$id PATCH-DOES-NOT-APPLY"; continue; }
+one() {
+  id=$1; d=/verif/seeded/$id; R=/tmp/rv_repo_$id
+  rm -rf $R; mkdir -p $R; rsync -a --exclude .git /repo/ $R/
+  props=$(python3 -c "import json,os;print(' '.join(json.load(open('$d/meta.json'))[os.environ.get('RV_KEY','check_props')]))")
+  (cd $R && git apply $d/patch.diff) || { echo "$id PATCH-DOES-NOT-APPLY"; rm -rf $R; return; }
   caught=""
   for p in $props; do
-    ./check.sh $p $T > /tmp/rv_$id.$p.log 2>&1; rc=$?
+    VERIF_REPO=$R VERIF_WORKERS=$((16/PAR)) /verif/check.sh $p $T > /tmp/rv_$id.$p.log 2>&1; rc=$?
     obs=$(grep -E "^  obligation=" /tmp/rv_$id.$p.log | sed -E 's/^  obligation=([^ ]+) kind=([^ ]+)( assert=([^ ]+))?.*/\1:\2:\4/' | sort -u | tr '\n' ' ')
     echo "$id $p exit=$rc $obs"
     [ $rc -eq 1 ] && caught="$caught $(grep -E '^  obligation=' /tmp/rv_$id.$p.log | sed -E 's/^  obligation=([^ ]+) .*/\1/' | sort -u | tr '\n' ' ')"
-    [ $rc -eq 2 ] && echo "   INCONCLUSIVE: $(grep -E '^INCONCLUSIVE' /tmp/rv_$id.$p.log | head -2)"
+    [ $rc -eq 2 ] && echo "   $id $p INCONCLUSIVE: $(grep -E '^INCONCLUSIVE' /tmp/rv_$id.$p.log | head -2)"
   done
-  git -C /repo checkout -- .
+  rm -rf $R
   python3 - "$d/meta.json" "$T" $caught <<'PY'
 import json,sys
 f=sys.argv[1]; tier=sys.argv[2]; c=sorted(set(sys.argv[3:]))
 m=json.load(open(f)); m['caught_by']=c; m['caught_tier']=tier; json.dump(m,open(f,'w'),indent=1)
 PY
+}
+n=0
+for id in $IDS; do
+  one $id &
+  n=$((n+1)); if [ $((n % PAR)) -eq 0 ]; then wait; fi
 done
-git -C /repo status --short | grep -q . && echo "WARNING: /repo not clean"
+wait
 python3 - <<'PY'
 import json,glob
 r={}
